@@ -474,6 +474,10 @@ func writeEvidenceFull(path, P, tier string, seed int, named map[string]*namedOb
 		"fvc's symbolic semantics of the SSA subset; Go int arithmetic treated as mathematical integers (no overflow obligations generated)",
 		"SMT solvers z3 4.8.12 / z3 5.1.0 / cvc5 1.0.x are sound",
 		"nil slices and empty slices are identified; slices are value sequences (no stores through slice elements in /repo, checked by the generator)",
+		"the entry heap is closed under reachability: a reference stored in an object that exists at function entry was allocated before entry",
+		"float64 values and their operations, integer bit operations and shifts by a variable are uninterpreted symbols (the same symbols in code and specification)",
+		"bytes of strings and []byte are not constrained to 0..255 inside verification conditions (only replayed inputs are)",
+		"termination is proved per loop (variant) and per recursion cycle (lexicographic measure); map range loops are assumed to terminate; stack depth and memory are outside the logic",
 	}
 	if u != nil {
 		assumptions = append(assumptions, u.assumes...)
